@@ -417,4 +417,21 @@ def templateSolve (g : IR) : List (Nat × List Nat) :=
     let used := (List.range P).filterMap fun j => if sol.getD (n * P + j) 0 != 0 then ts.tps[j]? else none
     if used.isEmpty then none else some (n, used)
 
+/-- `find_used_template_parameters` when `allowlist_recursively` is off (ir/context.rs): no
+analysis runs; every allowlisted item is said to use exactly its *own* template parameters
+(`id.self_template_params(ctx)`), nothing from its ancestors and nothing through its members. -/
+def templateNonRecursive (g : IR) : List (Nat × List Nat) :=
+  (List.range g.size).filterMap fun n =>
+    let i := g.get n
+    if i.allowlisted then
+      let ps := if i.kind == .type then selfParams g g.size n else []
+      if ps.isEmpty then none else some (n, ps)
+    else none
+
+/-- `BindgenContext::uses_any_template_parameters` over either map -/
+def usesAny (used : List (Nat × List Nat)) (n : Nat) : Bool :=
+  match used.find? (·.1 == n) with
+  | some e => !e.2.isEmpty
+  | none => false
+
 end BindgenModel.Analyses
